@@ -186,6 +186,11 @@ func (st *SiteTable) OffMask(enabledPrefixes ...string) []bool {
 
 // StartSim draws the scheduling policy from the plan stream and starts the
 // simulation on the calling goroutine (inside the bubble).
+// smallGaps: preemption gaps for scenarios whose yield points are confined to one small package (a plugin): with
+// so few yields per run, short quanta and PCT change points drawn from a short range are what makes two tasks
+// meet inside a window of two or three statements.
+var smallGaps = []int{0, 1, 1, 1, 2, 2, 3, 5, 8}
+
 func (r *Run) StartSim(cfg verifsim.Config, enabledPrefixes ...string) *verifsim.Sim {
 	if len(enabledPrefixes) == 0 {
 		enabledPrefixes = []string{"rpc/"}
